@@ -60,6 +60,8 @@ S0(P) == [ pc   |-> [a \in Actors(P) |-> 1],
            oerun |-> [a \in Actors(P) |-> <<>>],       \* ghost: callbacks run so far
            dmn  |-> [a \in Actors(P) |-> FALSE],       \* daemon
            kt   |-> [a \in Actors(P) |-> -1],          \* kill time (absolute date), -1 = none
+           hoff |-> [a \in Actors(P) |-> FALSE],       \* host of actor a (one host per actor) is off
+           loff |-> FALSE,                             \* the link is off
            now  |-> 0,
            obs  |-> [a \in Actors(P) |-> <<>>],        \* history: results observed by a
            ov   |-> [a \in Actors(P) |-> <<>>],        \* history: values observed by a (payload received, 0 otherwise)
@@ -112,9 +114,10 @@ AnswerAll(s, seq, r) == IF seq = <<>> THEN s ELSE AnswerAll(Answer(s, Head(seq),
 \* one of the receiver's activities)
 NewAct(kind, mb, src, dst, pay, sz, st, det, fin) ==
   [kind |-> kind, mb |-> mb, src |-> src, dst |-> dst, pay |-> pay, sz |-> sz, st |-> st, det |-> det, fin |-> fin,
-   rp |-> (src = 0)]
+   rp |-> (src = 0), doom |-> FALSE]
 PayloadId(s, a) == a * 1000 + s.pc[a]                       \* the driver builds the same identifier
 FinDate(P, s, d) == IF P.timed THEN s.now + d ELSE -1
+StartSt(s) == IF s.loff THEN "failed" ELSE "run"          \* CommImpl::start: a failed link is detected immediately
 FirstIdx(s, q, Test(_)) == LET I == { i \in 1..Len(q) : Test(s.act[q[i]]) } IN
                            IF I = {} THEN 0 ELSE CHOOSE i \in I : \A j \in I : i <= j
 RemoveAt(q, i) == SubSeq(q, 1, i - 1) \o SubSeq(q, i + 1, Len(q))
@@ -122,6 +125,8 @@ IsRecv(c) == c.src = 0
 IsSend(c) == c.dst = 0
 Waiters(P, s, c) == { a \in Actors(P) : s.ph[a] = "blocked" /\ s.blk[a].kind = "act" /\ s.blk[a].o = c }
 
+RECURSIVE FailWaiters(_, _, _)
+FailWaiters(s, as, r) == IF as = {} THEN s ELSE LET a == CHOOSE x \in as : TRUE IN FailWaiters(Answer(s, a, r), as \ {a}, r)
 \* what the waiter of a finished activity gets: the receiver of a communication / message gets the payload
 \* (blk.m = 1: the actor waits through the receiving side; an actor may send to itself)
 WaitResult(s, a, c) == IF s.act[c].kind \in {"comm", "mess"} /\ s.blk[a].m = 1 THEN s.act[c].pay ELSE 0
@@ -130,7 +135,10 @@ AnswerWaiters(s, as, c) == IF as = {} THEN s
                            ELSE LET a == CHOOSE x \in as : TRUE IN
                                 AnswerWaiters(AnswerV(s, a, "ok", WaitResult(s, a, c)), as \ {a}, c)
 \* completion of a running activity: every actor blocked on it is answered (CommImpl::finish / ExecImpl::finish)
-Complete(P, s, c) == AnswerWaiters([s EXCEPT !.act[c].st = "done"], Waiters(P, s, c), c)
+\* (doom: a detached send whose source host died keeps flying and fails when it reaches its natural completion date:
+\* CommImpl::finish looks at the hosts then)
+Complete(P, s, c) == IF s.act[c].doom THEN FailWaiters([s EXCEPT !.act[c].st = "failed"], Waiters(P, s, c), "network_failure")
+                     ELSE AnswerWaiters([s EXCEPT !.act[c].st = "done"], Waiters(P, s, c), c)
 
 \* CommImpl::isend on mailbox b: first queued receive in arrival order, else queue (or start at once towards the
 \* permanent receiver).  Returns the new state with s.cur[a] = the communication.
@@ -138,10 +146,10 @@ Isend(P, s, a, b, sz, det) ==
   LET i == FirstIdx(s, s.mbq[b], IsRecv) IN
   IF i # 0 THEN LET c == s.mbq[b][i] IN
        [s EXCEPT !.mbq[b] = RemoveAt(@, i), !.act[c].src = a, !.act[c].pay = PayloadId(s, a), !.act[c].sz = sz,
-                 !.act[c].st = "run", !.act[c].det = det, !.act[c].fin = FinDate(P, s, sz), !.cur[a] = c]
+                 !.act[c].st = StartSt(s), !.act[c].det = det, !.act[c].fin = FinDate(P, s, sz), !.cur[a] = c]
   ELSE LET c == Len(s.act) + 1 IN
        IF P.perm[b] # 0
-       THEN [s EXCEPT !.act = Append(@, NewAct("comm", b, a, P.perm[b], PayloadId(s, a), sz, "run", det, FinDate(P, s, sz))),
+       THEN [s EXCEPT !.act = Append(@, NewAct("comm", b, a, P.perm[b], PayloadId(s, a), sz, StartSt(s), det, FinDate(P, s, sz))),
                       !.mdone[b] = Append(@, c), !.cur[a] = c]
        ELSE [s EXCEPT !.act = Append(@, NewAct("comm", b, a, 0, PayloadId(s, a), sz, "wait", det, -1)),
                       !.mbq[b] = Append(@, c), !.cur[a] = c]
@@ -151,10 +159,16 @@ Irecv(P, s, a, b) ==
       i == IF d = 1 THEN 0 ELSE FirstIdx(s, s.mbq[b], IsSend) IN
   IF d = 1 THEN LET c == Head(s.mdone[b]) IN [s EXCEPT !.mdone[b] = Tail(@), !.act[c].dst = a, !.act[c].rp = TRUE, !.cur[a] = c]
   ELSE IF i # 0 THEN LET c == s.mbq[b][i] IN
-       [s EXCEPT !.mbq[b] = RemoveAt(@, i), !.act[c].dst = a, !.act[c].rp = TRUE, !.act[c].st = "run",
+       [s EXCEPT !.mbq[b] = RemoveAt(@, i), !.act[c].dst = a, !.act[c].rp = TRUE, !.act[c].st = StartSt(s),
                  !.act[c].fin = FinDate(P, s, s.act[c].sz), !.cur[a] = c]
   ELSE LET c == Len(s.act) + 1 IN
        [s EXCEPT !.act = Append(@, NewAct("comm", b, 0, a, 0, 0, "wait", FALSE, -1)), !.mbq[b] = Append(@, c), !.cur[a] = c]
+\* a communication that fails as soon as it starts (link off) releases the actor already blocked on its other side
+RECURSIVE FailedStart(_, _)
+FailedStart(P, s) ==
+  LET bad == { c \in 1..Len(s.act) : s.act[c].st = "failed" /\ Waiters(P, s, c) # {} } IN
+  IF bad = {} THEN s
+  ELSE LET c == CHOOSE x \in bad : TRUE IN FailedStart(P, FailWaiters(s, Waiters(P, s, c), "network_failure"))
 \* MessImpl::iput / iget: a matched message is done at once (no simulated duration)
 Iput(P, s, a, q) ==
   LET i == FirstIdx(s, s.mqq[q], IsRecv) IN
@@ -179,8 +193,6 @@ WaitAct(P, s, a, c, t, r) ==     \* r: waiting through the receiving side
 Mine(s, a) == { c \in 1..Len(s.act) : /\ s.act[c].st \in {"wait", "run"}
                                        /\ \/ s.act[c].src = a /\ ~s.act[c].det
                                           \/ s.act[c].dst = a /\ s.act[c].rp }
-RECURSIVE FailWaiters(_, _, _)
-FailWaiters(s, as, r) == IF as = {} THEN s ELSE LET a == CHOOSE x \in as : TRUE IN FailWaiters(Answer(s, a, r), as \ {a}, r)
 CancelAct(P, s, c) ==
   LET k == s.act[c] IN
   IF k.st = "wait"
@@ -217,6 +229,22 @@ KillActor(P, s, t) ==
                               !.kt[t] = -1], Mine(q, t))
 RECURSIVE KillSet(_, _, _)
 KillSet(P, s, ts) == IF ts = {} THEN s ELSE LET t == CHOOSE x \in ts : TRUE IN KillSet(P, KillActor(P, s, t), ts \ {t})
+\* ------------------------------------------------------------------ resource failures (C10)
+Running(s)     == { c \in 1..Len(s.act) : s.act[c].st = "run" }
+RECURSIVE FailSet(_, _, _)
+FailSet(P, s, cs) == IF cs = {} THEN s
+                     ELSE LET c == CHOOSE x \in cs : TRUE IN
+                          FailSet(P, FailWaiters([s EXCEPT !.act[c].st = "failed"], Waiters(P, s, c), "network_failure"), cs \ {c})
+\* Host::turn_off: the actor of that host is killed (its on_exit callbacks see failed = true), every communication in flight
+\* from or to that host fails and the surviving peer blocked on it gets a NetworkFailureException (at once for the
+\* communications the dead actor takes part in; at their completion date for the detached sends it left behind)
+HostOff(P, s, h) ==
+  LET k == KillActor(P, [s EXCEPT !.hoff[h] = TRUE], h)
+      det == { c \in Running(k) : k.act[c].kind = "comm" /\ k.act[c].det /\ k.act[c].src = h } IN
+  [k EXCEPT !.act = [c \in 1..Len(k.act) |-> IF c \in det THEN [k.act[c] EXCEPT !.doom = TRUE] ELSE k.act[c]]]
+\* Link::turn_off: every communication in flight fails; both sides get the failure
+LinkOff(P, s) == LET k == [s EXCEPT !.loff = TRUE] IN FailSet(P, k, { c \in Running(k) : k.act[c].kind = "comm" })
+
 \* EngineImpl::run: when only daemons remain they are killed (checked by maestro at the end of each scheduling sub-round,
 \* i.e. some time after the last regular actor ended: a separate step)
 OnlyDaemons(P, s) == LET alive == { a \in Actors(P) : Alive(s, a) } IN
@@ -239,7 +267,8 @@ IsLocal(P, s, a) == LET op == Cur(P, s, a) IN
                     \/ op.op = "kill" /\ s.ph[op.o] = "unborn"        \* nobody to kill yet: no simcall
 LocalRet(P, s, a) == LET op == Cur(P, s, a) IN
                      IF op.op = "kill" THEN Answer(s, a, "ok")
-                     ELSE LET h == s.hnd[a][op.o] IN AnswerV(s, a, "true", IF h.r THEN s.act[h.c].pay ELSE 0)       \* an asynchronous operation returns a handle
+                     ELSE LET h == s.hnd[a][op.o] IN
+                          AnswerV(s, a, "true", IF h.r /\ s.act[h.c].st = "done" THEN s.act[h.c].pay ELSE 0)       \* an asynchronous operation returns a handle
 
 \* number of simcalls of an operation (run granularity): blocking put / get / exec = start + wait
 NSub(op) == IF op.op \in {"put", "get", "mput", "mget", "exec"} THEN 2 ELSE 1
@@ -277,11 +306,11 @@ Handle(P, s, a) ==
     [] k = "sleep" -> Block([s EXCEPT !.tmr[a] = s.now + op.t], a, "sleep", 0, 0)
     [] k = "yield" -> Answer(s, a, "ok")
     \* ---- mailboxes (o = mailbox, t = size)
-    [] k = "put"  -> IF s.sub[a] = 1 THEN Answer(Isend(P, s, a, o, op.t, FALSE), a, "ok") ELSE WaitAct(P, s, a, s.cur[a], -1, FALSE)
-    [] k = "get"  -> IF s.sub[a] = 1 THEN Answer(Irecv(P, s, a, o), a, "ok") ELSE WaitAct(P, s, a, s.cur[a], -1, TRUE)
-    [] k = "puta" -> Answer(Keep(Isend(P, s, a, o, op.t, FALSE), a, FALSE), a, "ok")
-    [] k = "putd" -> Answer(Isend(P, s, a, o, op.t, TRUE), a, "ok")
-    [] k = "geta" -> Answer(Keep(Irecv(P, s, a, o), a, TRUE), a, "ok")
+    [] k = "put"  -> IF s.sub[a] = 1 THEN Answer(FailedStart(P, Isend(P, s, a, o, op.t, FALSE)), a, "ok") ELSE WaitAct(P, s, a, s.cur[a], -1, FALSE)
+    [] k = "get"  -> IF s.sub[a] = 1 THEN Answer(FailedStart(P, Irecv(P, s, a, o)), a, "ok") ELSE WaitAct(P, s, a, s.cur[a], -1, TRUE)
+    [] k = "puta" -> Answer(Keep(FailedStart(P, Isend(P, s, a, o, op.t, FALSE)), a, FALSE), a, "ok")
+    [] k = "putd" -> Answer(FailedStart(P, Isend(P, s, a, o, op.t, TRUE)), a, "ok")
+    [] k = "geta" -> Answer(Keep(FailedStart(P, Irecv(P, s, a, o)), a, TRUE), a, "ok")
     \* ---- message queues (o = queue)
     [] k = "mput"  -> IF s.sub[a] = 1 THEN Answer(Iput(P, s, a, o), a, "ok") ELSE WaitAct(P, s, a, s.cur[a], -1, FALSE)
     [] k = "mget"  -> IF s.sub[a] = 1 THEN Answer(Iget(P, s, a, o), a, "ok") ELSE WaitAct(P, s, a, s.cur[a], -1, TRUE)
@@ -301,6 +330,7 @@ Handle(P, s, a) ==
     [] k = "test"    -> IF o > Len(s.hnd[a]) THEN Abort(s, a)
                         ELSE LET c == s.hnd[a][o].c IN
                              IF s.act[c].st = "done" THEN AnswerV(s, a, "true", IF s.hnd[a][o].r THEN s.act[c].pay ELSE 0)
+                             ELSE IF s.act[c].st \in {"failed", "canceled"} THEN Answer(s, a, "true")   \* ActivityImpl::test
                              ELSE Answer(s, a, "false")
     \* ---- lifecycle (o = other actor, t = duration / date)
     [] k = "create"   -> IF s.ph[o] # "unborn" THEN Abort(s, a)
@@ -313,12 +343,16 @@ Handle(P, s, a) ==
     [] k = "join"     -> IF s.ph[o] = "unborn" THEN Abort(s, a)
                          ELSE IF s.ph[o] \in {"done", "dead", "dying", "exiting"} THEN Answer(s, a, "ok")
                          ELSE Block([s EXCEPT !.tmr[a] = IF op.t >= 0 THEN s.now + op.t ELSE -1], a, "join", o, 0)
+    \* ---- resource failures (o = host = actor number)
+    [] k = "hostoff" -> IF o = a THEN Undef(s, a) ELSE Answer(HostOff(P, s, o), a, "ok")
+    [] k = "hoston"  -> Answer([s EXCEPT !.hoff[o] = FALSE], a, "ok")
+    [] k = "linkoff" -> Answer(LinkOff(P, s), a, "ok")
+    [] k = "linkon"  -> Answer([s EXCEPT !.loff = FALSE], a, "ok")
     [] OTHER -> Abort(s, a)
 
 \* ------------------------------------------------------------------ time
 Ready(s, a)     == s.ph[a] \in {"run", "issued", "answered", "dying", "exiting"}
 SomeReady(P, s) == \E a \in Actors(P) : Ready(s, a)
-Running(s)     == { c \in 1..Len(s.act) : s.act[c].st = "run" }
 TimerDates(P, s) == { s.tmr[a] : a \in { b \in Actors(P) : s.tmr[b] >= 0 } }
                     \cup { s.kt[a] : a \in { b \in Actors(P) : s.kt[b] >= 0 /\ Alive(s, b) } }
                     \cup { s.act[c].fin : c \in { x \in Running(s) : s.act[x].fin >= 0 } }
@@ -447,8 +481,15 @@ Lifecycle(P, s) ==
   /\ \A a \in Actors(P) : (s.ph[a] = "blocked" /\ s.blk[a].kind = "join") => Alive(s, s.blk[a].o) \/ s.ph[s.blk[a].o] = "unborn"
   /\ Terminal(P, s) => \A a \in Actors(P) : ~(s.dmn[a] /\ Alive(s, a))
 
+\* C10: nobody stays blocked on an activity that has failed, and an actor whose host is off is not running
+FailureReported(P, s) ==
+  /\ \A a \in Actors(P) : (s.ph[a] = "blocked" /\ s.blk[a].kind = "act") => s.act[s.blk[a].o].st # "failed"
+  /\ \A a \in Actors(P) : s.hoff[a] => s.ph[a] \in {"dying", "exiting", "dead", "done", "unborn"}
+  /\ \A c \in 1..Len(s.act) : (s.act[c].st = "run" /\ s.act[c].kind = "comm" /\ ~s.act[c].doom) =>
+                                 ~s.hoff[s.act[c].src] /\ (s.act[c].dst # 0 => ~s.hoff[s.act[c].dst])
+
 KernelInv(P, s) == /\ MutexOwnership(P, s) /\ MutexExclusion(P, s) /\ SemConservation(P, s)
-                   /\ CvConsistency(P, s) /\ BarrierGroups(P, s) /\ PhaseConsistency(P, s) /\ CommExactlyOnce(P, s) /\ Lifecycle(P, s)
+                   /\ CvConsistency(P, s) /\ BarrierGroups(P, s) /\ PhaseConsistency(P, s) /\ CommExactlyOnce(P, s) /\ Lifecycle(P, s) /\ FailureReported(P, s)
 
 \* what an execution leaves behind (C14 / C38: set of terminal outcomes)
 Outcome(P, s) == [ obs |-> s.obs, ov |-> s.ov, ph |-> s.ph, blk |-> [a \in Actors(P) |-> s.blk[a].kind],
